@@ -5,7 +5,9 @@
    regenerated from pyrtl/passes.py on every run, so the theorems below are
    re-checked against the current source. *)
 From PyRTL Require Import Netlist.Sem Netlist.WFDefs Gen.ConstFold Pass.Opt Pass.OptCheck
-  Pass.OptFoldProofs Pass.OptProofs Pass.OptDeadProofs Pass.OptAliasProofs Pass.OptRemoveProofs.
+  Pass.OptFoldProofs Pass.OptProofs Pass.OptDeadProofs Pass.OptAliasProofs Pass.OptRemoveProofs
+  Pass.OptSimProofs Pass.OptCpProofs Pass.OptLoopProofs Pass.OptCpLoopProofs Pass.OptCseProofs
+  Pass.OptOptimizeProofs.
 From PyRTL Require Import Sim.SimModel Sim.SimCorrect.
 
 (* ---- (T) the folding tables agree with the reference op table wherever
@@ -142,7 +144,7 @@ Print Assumptions C04_dead_removal_sound.
    same value on every cycle.  `unlistened_ok nl` is a decidable premise (the kept
    set is closed: kept nets read no removed destination, no memory write is
    removed); the harness evaluates it on every sampled design. *)
-Theorem C04_remove_unlistened_preserves_partial :
+Theorem C04_remove_unlistened_preserves :
   forall nl dflt, unlistened_ok nl = true ->
   let nl' := remove_unlistened_nets nl in
   let D := dead nl (listened_net nl (listened_wires nl)) nl' in
@@ -151,7 +153,7 @@ Theorem C04_remove_unlistened_preserves_partial :
   /\ forall inss st st', st_agree D st st' ->
        Forall2 (agree D) (fst (run nl dflt st inss)) (fst (run nl' dflt st' inss)).
 Proof. exact remove_unlistened_preserves. Qed.
-Print Assumptions C04_remove_unlistened_preserves_partial.
+Print Assumptions C04_remove_unlistened_preserves.
 
 (* _remove_wire_nets / _remove_slice_nets (model): every wire that is not the
    destination of a removed net has the same value on every cycle of every legal
@@ -161,21 +163,21 @@ Print Assumptions C04_remove_unlistened_preserves_partial.
    wire of the same width; removed nets have one argument as wide as their
    destination; selects obey sanity_check's index rules); the harness evaluates
    them on every sampled design. *)
-Theorem C04_remove_wire_nets_preserves_partial :
+Theorem C04_remove_wire_nets_preserves :
   forall nl dflt, wfb nl = true -> wire_removal_ok nl = true ->
   forall inss st st', st_eq st st' -> Forall (legal_ins nl) inss -> legal_regs nl (sregs st) ->
   Forall2 (fun v v' => forall w, In w (rdy_final nl) -> ~ In w (alias_dead nl is_w_net) -> v w = v' w)
           (fst (run nl dflt st inss)) (fst (run (remove_wire_nets nl) dflt st' inss)).
 Proof. exact remove_wire_nets_preserves. Qed.
-Print Assumptions C04_remove_wire_nets_preserves_partial.
+Print Assumptions C04_remove_wire_nets_preserves.
 
-Theorem C04_remove_slice_nets_preserves_partial :
+Theorem C04_remove_slice_nets_preserves :
   forall nl dflt, wfb nl = true -> slice_removal_ok nl = true ->
   forall inss st st', st_eq st st' -> Forall (legal_ins nl) inss -> legal_regs nl (sregs st) ->
   Forall2 (fun v v' => forall w, In w (rdy_final nl) -> ~ In w (alias_dead nl (is_full_slice nl)) -> v w = v' w)
           (fst (run nl dflt st inss)) (fst (run (remove_slice_nets nl) dflt st' inss)).
 Proof. exact remove_slice_nets_preserves. Qed.
-Print Assumptions C04_remove_slice_nets_preserves_partial.
+Print Assumptions C04_remove_slice_nets_preserves.
 
 (* the general simulation behind both: any set of identity nets may be removed
    with their readers redirected through any map rho that sends a removed
@@ -195,52 +197,148 @@ Theorem C04_alias_removal_sound :
   (forall n, In n (nets nl) -> gone nl sel n = false -> op_has_dest (nop n) = true ->
      ~ In (ndest n) (dead_list nl sel)) ->
   forall inss st st', st_eq st st' -> Forall (legal_ins nl) inss -> legal_regs nl (sregs st) ->
-  Forall2 (sim_val nl rho) (fst (run nl dflt st inss)) (fst (run (nl' nl sel rho) dflt st' inss)).
+  Forall2 (OptAliasProofs.sim_val nl rho) (fst (run nl dflt st inss))
+          (fst (run (OptAliasProofs.nl' nl sel rho) dflt st' inss)).
 Proof. exact alias_run. Qed.
 Print Assumptions C04_alias_removal_sound.
 
-(* ---- the full per-pass statement (NOT proved for the rewriting passes: their
-        local rewrite rules are the theorems above; the composition into a
-        whole-netlist simulation is tied structurally + behaviourally on every
-        run by py/checks/C04.py) ------------------------------------------------ *)
+(* ---- whole-pass preservation -------------------------------------------------
+   Every theorem below has the shape
+       <pass>_ok nl = true  ->  [steady-state hypothesis]  ->  legal inputs / registers  ->
+       every Output of nl has the same value on every cycle in nl and in (pass nl)
+       /\ the Outputs of nl are Outputs of (pass nl)
+       /\ the inputs / registers stay legal for (pass nl)        (so theorems chain)
+   `<pass>_ok` is a DECIDABLE premise (Pass/OptCheck.v): wfb of every intermediate
+   netlist, the width facts the construction API guarantees, that the producer map
+   resolves every removed destination to a declared wire of the same width, that
+   Inputs / Outputs keep their declarations, ...  The harness evaluates it (and the
+   decidable form of the steady-state hypothesis) on every sampled design, for the
+   first and for the repeated application. ----------------------------------------- *)
 
-Definition is_io (x : wire) : Prop := wkind x = KInput \/ wkind x = KOutput.
+(* the sanctioned steady-state hypothesis, exactly as the property states it: every
+   register a round of _constant_prop_pass folds starts out holding the constant it
+   is folded to (cp_steady); for the loop: of every round the loop runs *)
+Theorem C04_steady_decidable :
+  (forall nl st, cp_steadyb nl (sregs st) = true ->
+     forall r, cp_folded nl r = true -> sregs st r = cp_cst nl r)
+  /\ (forall nl st, constant_propagation_steadyb nl (sregs st) = true -> cp_loop_steady nl st).
+Proof. exact (conj cp_steadyb_sound constant_propagation_steadyb_sound). Qed.
+Print Assumptions C04_steady_decidable.
 
-Definition out_rows (nl : netlist) (vs : list (wid -> Z)) : list (list Z) :=
-  map (fun v => map (fun x => v (wname x))
-                    (filter (fun x => match wkind x with KOutput => true | _ => false end)
-                            (wires nl))) vs.
+(* one round of _constant_prop_pass: EVERY wire w of nl whose representative
+   (cp_rho nl w: itself, the wire it was replaced by, or the fresh Const) is declared in
+   the result has the value of that representative, on every cycle *)
+Theorem C04_constant_prop_pass_preserves :
+  forall nl dflt, wfb nl = true -> cp_pass_ok nl = true ->
+  forall inss st st', st_rel (cp_folded nl) (cp_cst nl) st st' ->
+  Forall (legal_ins nl) inss -> legal_regs nl (sregs st) ->
+  Forall2 (fun v v' => forall w, In w (rdy_final nl) ->
+                         live (constant_prop_pass nl) (cp_rho nl) w = true -> v w = v' (cp_rho nl w))
+          (fst (run nl dflt st inss)) (fst (run (constant_prop_pass nl) dflt st' inss)).
+Proof. exact cp_pass_sim. Qed.
+Print Assumptions C04_constant_prop_pass_preserves.
 
-(* the sanctioned steady-state proviso: a register the pass eliminates keeps, on
-   every reachable cycle of the ORIGINAL design, the value it starts with *)
-Definition holds_forever (nl : netlist) (dflt : Z) (st : state) (r : wid) : Prop :=
-  forall inss, sregs (snd (run nl dflt st inss)) r = sregs st r.
+(* constant_propagation = the `while net_count.shrinking()` loop *)
+Theorem C04_constant_propagation_preserves :
+  forall nl dflt, constant_propagation_ok nl = true ->
+  forall inss st, cp_loop_steady nl st ->
+  Forall (legal_ins nl) inss -> legal_regs nl (sregs st) ->
+  Forall2 (fun v v' => forall o, is_output nl o = true -> v o = v' o)
+          (fst (run nl dflt st inss)) (fst (run (constant_propagation nl) dflt st inss))
+  /\ (forall o, is_output nl o = true -> is_output (constant_propagation nl) o = true)
+  /\ Forall (legal_ins (constant_propagation nl)) inss
+  /\ legal_regs (constant_propagation nl) (sregs st).
+Proof. exact constant_propagation_preserves. Qed.
+Print Assumptions C04_constant_propagation_preserves.
 
-Definition C04_pass_preserves_full_statement (pass : netlist -> netlist) : Prop :=
-  forall nl dflt, wfb nl = true -> api_built nl = true ->
-    let nl' := pass nl in
-    wfb nl' = true
-    /\ (forall x, is_io x -> (In x (wires nl) <-> In x (wires nl')))
-    /\ forall st inss,
-         (forall r, is_register nl r = true -> find_wire (wires nl') r = None ->
-                    holds_forever nl dflt st r) ->
-         out_rows nl (fst (run nl dflt st inss)) = out_rows nl' (fst (run nl' dflt st inss)).
+(* one CSE round: every wire of nl has the value of its representative (itself or the
+   kept member of its class) *)
+Theorem C04_cse_round_preserves :
+  forall nl dflt, wfb nl = true -> cse_pass_ok nl = true ->
+  forall inss st st', st_rel (fun _ => false) (fun _ => 0) st st' ->
+  Forall (legal_ins nl) inss -> legal_regs nl (sregs st) ->
+  Forall2 (fun v v' => forall w, In w (rdy_final nl) ->
+                         live (cse_round nl) (cse_rho nl) w = true -> v w = v' (cse_rho nl w))
+          (fst (run nl dflt st inss)) (fst (run (cse_round nl) dflt st' inss)).
+Proof. exact cse_round_sim. Qed.
+Print Assumptions C04_cse_round_preserves.
 
-Definition C04_optimize_preserves_full_statement : Prop :=
-  C04_pass_preserves_full_statement optimize.
-Definition C04_constant_propagation_preserves_full_statement : Prop :=
-  C04_pass_preserves_full_statement constant_propagation.
-Definition C04_cse_preserves_full_statement : Prop :=
-  C04_pass_preserves_full_statement common_subexp_elimination.
-Definition C04_remove_wire_nets_preserves_full_statement : Prop :=
-  C04_pass_preserves_full_statement remove_wire_nets.
-Definition C04_remove_slice_nets_preserves_full_statement : Prop :=
-  C04_pass_preserves_full_statement remove_slice_nets.
-Definition C04_remove_unlistened_preserves_full_statement : Prop :=
-  C04_pass_preserves_full_statement remove_unlistened_nets.
-(* repeated application: *)
-Definition C04_idempotent_behaviour_full_statement : Prop :=
-  forall k, C04_pass_preserves_full_statement (fun nl => Nat.iter k optimize nl).
+Theorem C04_cse_preserves :
+  forall nl dflt, cse_ok nl = true ->
+  forall inss st, Forall (legal_ins nl) inss -> legal_regs nl (sregs st) ->
+  Forall2 (fun v v' => forall o, is_output nl o = true -> v o = v' o)
+          (fst (run nl dflt st inss)) (fst (run (common_subexp_elimination nl) dflt st inss))
+  /\ (forall o, is_output nl o = true -> is_output (common_subexp_elimination nl) o = true)
+  /\ Forall (legal_ins (common_subexp_elimination nl)) inss
+  /\ legal_regs (common_subexp_elimination nl) (sregs st).
+Proof. exact cse_preserves. Qed.
+Print Assumptions C04_cse_preserves.
+
+(* the three removal passes in the same chainable form *)
+Theorem C04_removal_stages :
+  forall nl dflt inss st, Forall (legal_ins nl) inss -> legal_regs nl (sregs st) ->
+  (wire_stage_ok nl = true -> stage_preserves dflt nl (remove_wire_nets nl) inss st)
+  /\ (slice_stage_ok nl = true -> stage_preserves dflt nl (remove_slice_nets nl) inss st)
+  /\ (unlistened_stage_ok nl = true -> stage_preserves dflt nl (remove_unlistened_nets nl) inss st).
+Proof.
+  intros nl dflt inss st Hi Hr. split; [|split]; intros H.
+  - exact (wire_stage dflt nl inss st H Hi Hr).
+  - exact (slice_stage dflt nl inss st H Hi Hr).
+  - exact (unlistened_stage dflt nl inss st H Hi Hr).
+Qed.
+Print Assumptions C04_removal_stages.
+
+(* optimize() = the composition; the only hypothesis on the initial state is the
+   steady-state one of its constant_propagation stage *)
+Theorem C04_optimize_preserves :
+  forall nl dflt, optimize_ok nl = true ->
+  forall inss st, cp_loop_steady (remove_slice_nets (remove_wire_nets nl)) st ->
+  Forall (legal_ins nl) inss -> legal_regs nl (sregs st) ->
+  Forall2 (fun v v' => forall o, is_output nl o = true -> v o = v' o)
+          (fst (run nl dflt st inss)) (fst (run (optimize nl) dflt st inss))
+  /\ (forall o, is_output nl o = true -> is_output (optimize nl) o = true)
+  /\ Forall (legal_ins (optimize nl)) inss
+  /\ legal_regs (optimize nl) (sregs st).
+Proof. exact optimize_preserves. Qed.
+Print Assumptions C04_optimize_preserves.
+
+(* repeated application *)
+Theorem C04_optimize_twice_preserves :
+  forall nl dflt, optimize_ok nl = true -> optimize_ok (optimize nl) = true ->
+  forall inss st, optimize_steady nl st -> optimize_steady (optimize nl) st ->
+  Forall (legal_ins nl) inss -> legal_regs nl (sregs st) ->
+  Forall2 (fun v v' => forall o, is_output nl o = true -> v o = v' o)
+          (fst (run nl dflt st inss)) (fst (run (optimize (optimize nl)) dflt st inss))
+  /\ (forall o, is_output nl o = true -> is_output (optimize (optimize nl)) o = true)
+  /\ Forall (legal_ins (optimize (optimize nl))) inss
+  /\ legal_regs (optimize (optimize nl)) (sregs st).
+Proof. exact optimize_twice_preserves. Qed.
+Print Assumptions C04_optimize_twice_preserves.
+
+(* Inputs and Outputs are kept by every round whose link premise holds (it is a
+   conjunct of every <pass>_ok above) *)
+Theorem C04_inputs_outputs_kept :
+  forall nl nl' rho, link_ok nl nl' rho = true ->
+  (forall w, is_input nl w = true -> is_input nl' w = true)
+  /\ (forall o, is_output nl o = true -> is_output nl' o = true)
+  /\ (forall ins, legal_ins nl ins -> legal_ins nl' ins)
+  /\ (forall rg, legal_regs nl rg -> legal_regs nl' rg).
+Proof.
+  intros nl nl' rho H. split; [exact (link_inputs_kept nl nl' rho H)|].
+  split; [exact (link_outs_sub nl nl' rho H)|].
+  split; [exact (link_legal_ins nl nl' rho H)|exact (link_legal_regs nl nl' rho H)].
+Qed.
+Print Assumptions C04_inputs_outputs_kept.
+
+(* ---- what is NOT proved: that the decidable premises hold of EVERY well-formed
+        API-built netlist (they are evaluated on every sampled design instead).  With
+        it, the theorems above would need no premise beyond wfb / api_built, and
+        wfb of every pass result would follow. -------------------------------------- *)
+Definition C04_premises_always_hold_full_statement : Prop :=
+  forall nl, wfb nl = true -> api_built nl = true ->
+    optimize_ok nl = true /\ constant_propagation_ok nl = true /\ cse_ok nl = true
+    /\ wire_stage_ok nl = true /\ slice_stage_ok nl = true /\ unlistened_stage_ok nl = true
+    /\ wfb (optimize nl) = true /\ api_built (optimize nl) = true.
 
 (* ---- non-vacuity ------------------------------------------------------------- *)
 
@@ -266,7 +364,12 @@ Example C04_example_wf :
   wfb ex_nl = true /\ api_built ex_nl = true /\ unlistened_ok ex_nl = true
   /\ wire_removal_ok ex_nl = true /\ slice_removal_ok (remove_wire_nets ex_nl) = true
   /\ length (nets (remove_wire_nets ex_nl)) = 16%nat
-  /\ length (nets (remove_slice_nets (remove_wire_nets ex_nl))) = 15%nat.
+  /\ length (nets (remove_slice_nets (remove_wire_nets ex_nl))) = 15%nat
+  /\ optimize_ok ex_nl = true /\ optimize_ok (optimize ex_nl) = true
+  /\ constant_propagation_ok ex_nl = true /\ cse_ok ex_nl = true
+  /\ cp_folded ex_nl 11 = true /\ cp_cst ex_nl 11 = 2
+  /\ optimize_steadyb ex_nl (sregs (init_state ex_nl 0 [] [])) = true
+  /\ optimize_steadyb ex_nl (sregs (init_state ex_nl 0 [(11, 1)] [])) = false.
 Proof. vm_compute. repeat split; reflexivity. Qed.
 
 (* a & b / b & a share a key; a - b / b - a do not *)
